@@ -110,6 +110,7 @@ def cases(tier, rng):
     for name, b in arcs[1:]:
         n = len(clm_parse(b)[1])
         for off, width, fname in clm_fields(n):
+            if fname.startswith("fmt.") and name != "n2" and not thorough: continue    # the reader never interprets the format
             extra = []
             if fname.endswith(".offset"):
                 ln = struct.unpack_from("<I", b, off + 4)[0]
